@@ -19,7 +19,7 @@ def run(tier):
         for mode in ("complete", "incomplete"):
             conds.append(Cond("h_parse_str.py", "terminates", to, twin="reach_states" if mode == "complete" else None, path_timeout=to / 2,
                               env={"H_SPEC": spec, "H_LEN": "2" if tier == "quick" else "4", "H_MODE": mode}))
-    for spec, alpha, ql, tl in RX_SPECS:
+    for spec, alpha, ql, tl in RX_SPECS + [("rxnull", "ab", 3, 4)]:
         for mode in ("complete", "incomplete"):
             conds.append(Cond("h_parse_str.py", "terminates_fa", to, path_timeout=to / 2,
                               env={"H_SPEC": spec, "H_LEN": str(ql if tier == "quick" else tl), "H_ALPHA": alpha, "H_MODE": mode}))
